@@ -74,6 +74,8 @@ type Obligation struct {
 	NDecls int       // number of decls visible
 	// vacuity probes: expect sat
 	ExpectSat bool
+	// lemma proofs may only use earlier lemmas
+	LemmaIdx int
 
 	// results
 	Status string // unsat, sat, unknown, timeout, error
@@ -116,7 +118,7 @@ func (p *Proc) freshConst(hint string, sort Sort) *Term {
 
 // define introduces a name for a term (keeps terms small).
 func (p *Proc) define(st *State, hint string, t *Term) *Term {
-	if len(t.S) < 160 {
+	if len(t.S) < 160 || hasBound(t.S) {
 		return t
 	}
 	c := p.freshConst(hint, t.Sort)
